@@ -23,7 +23,7 @@ if surv:
         out.append(f"* `{n}` (targeted {', '.join(r[n]['expected'])}): {EQUIV.get(n, 'NOT YET EXPLAINED')}")
     out.append("")
 out.append("Invalid (listed for completeness): " + ", ".join(f"`{n}`" for n in sorted(invalid)) + ".\n")
-out.append("**Changes seeded by independent sub-agents** (eight rounds of one per property; each confirmed in a scratch worktree: demonstration passes on the original, existing suite passes with the change, demonstration fails with the change; then all twenty quick checks were run against it). Round 1 asked for a change that needs something specific to manifest; round 2 (`-r2`) told the sub-agent that a boundary-value-oriented property-based harness exists and asked for a defect that is harder to find (conjunctions, deeper state, less obvious values); round 3 (`-r3`) additionally listed the two defects already caught for the property and the dimensions the harness had been extended with, and asked for a trigger in a dimension it is still unlikely to vary; round 4 (`-r4`) repeated that with the three defects already caught and the grown list of dimensions; round 5 (`-r5`) once more, after counts, lengths and tag content had become generated dimensions; round 6 (`-r6`) after other headers, backlogs and cross-body state had; round 7 (`-r7`, nineteen changes) after repeated field lines, trusting consumers and unwinding drops had; round 8 (`-r8`, twenty changes, written in a later session by sub-agents that were given only the property text again) served as a regression round for the grown harness. The last column is the result with the checks as committed (after the strengthening described in 12.1 / 12.4): where a change carries a `revalidated` record (tools/revalidate_seeded.py: own check plus every check that caught it at confirmation time, re-run sequentially against the final harness and the final /repo HEAD) that record is shown, otherwise the result of the confirmation run.\n")
+out.append("**Changes seeded by independent sub-agents** (eight rounds of one per property; each confirmed in a scratch worktree: demonstration passes on the original, existing suite passes with the change, demonstration fails with the change; then all twenty quick checks were run against it). Round 1 asked for a change that needs something specific to manifest; round 2 (`-r2`) told the sub-agent that a boundary-value-oriented property-based harness exists and asked for a defect that is harder to find (conjunctions, deeper state, less obvious values); round 3 (`-r3`) additionally listed the two defects already caught for the property and the dimensions the harness had been extended with, and asked for a trigger in a dimension it is still unlikely to vary; round 4 (`-r4`) repeated that with the three defects already caught and the grown list of dimensions; round 5 (`-r5`) once more, after counts, lengths and tag content had become generated dimensions; round 6 (`-r6`) after other headers, backlogs and cross-body state had; round 7 (`-r7`, nineteen changes) after repeated field lines, trusting consumers and unwinding drops had; round 8 (`-r8`, twenty changes, written in a later session by sub-agents that were given only the property text again) served as a regression round for the grown harness. A last batch of five (`-r9`: C03, C06, C09, C10, C12) followed in the same session. The last column is the result with the checks as committed (after the strengthening described in 12.1 / 12.4): where a change carries a `revalidated` record (tools/revalidate_seeded.py: own check plus every check that caught it at confirmation time, re-run sequentially against the final harness and the final /repo HEAD) that record is shown, otherwise the result of the confirmation run.\n")
 out.append("| seeded for | what the change does (needs to manifest) | caught by |\n|---|---|---|")
 DESC = {}
 for f in sorted(glob.glob("/verif/seeded/*/meta.json"), key=lambda x: (x.split("/")[3][3:], x)):
